@@ -435,7 +435,7 @@ fn c14_try_advance_monotone() {
         assert!(G_STORES == 1 && (G_STORE_VAL == G_BEFORE_STORE || G_STORE_VAL == G_BEFORE_STORE.wrapping_add(2)), "C14.advance.monotone_single_step");
         assert!(G_STORE_VAL == e.wrapping_add(2), "C14.advance.only_to_successor_of_callers_epoch");
     }
-    kani::cover!(G_STORES == 1 && G_STORE_VAL == G_BEFORE_STORE, "cover.advance.overwrites_same_value");
+    kani::cover!(G_STORES == 0 && !ahead && now != e, "cover.advance.lost_the_race_stores_nothing");
     kani::cover!(G_STORES == 0 && ahead, "cover.advance.lagging_caller_refused");
 }}
 
@@ -837,3 +837,59 @@ fn c15_queue_drop_runs_leftovers() {
     kani::cover!(n == 2, "cover.queue_drop.two");
 }}
 fn k_no_spin(_b: &crossbeam_utils::Backoff) {}
+
+// ================================================================================================
+// C14 — try_advance while the CALLER's announcement moves during its own scan
+// (try_advance runs inside unpin's collection loop; unlinking a removed participant defers its
+//  destruction; if that overflows the caller's bag, schedule_collection re-announces the caller's epoch
+//  because `collecting` is set).  The clock must still never step back.
+// ================================================================================================
+static mut REANNOUNCED: u32 = 0;
+/// Contract of Guard::defer_destroy INCLUDING the side effect of Local::defer's overflow path on the
+/// deferring participant: with `collecting` set, the participant's announced epoch may be refreshed to
+/// the current global epoch (the real `repin_without_collect` is called to do it).
+unsafe fn k_defer_destroy_may_reannounce<T>(g: &Guard, _ptr: RawShared<T>) {
+    DESTROYS += 1;
+    if let Some(l) = g.local.as_ref() {
+        if l.collecting.get() && kani::any() {
+            l.repin_without_collect();
+            REANNOUNCED += 1;
+            PIN_VAL = raw_epoch(&l.epoch) & !1;      // the environment now sees me pinned there
+        }
+    }
+}
+
+#[kani::proof]
+#[kani::stub(std::sync::atomic::Atomic::<usize>::load, u_load)]
+#[kani::stub(std::sync::atomic::Atomic::<usize>::store, u_store)]
+#[kani::stub(std::sync::atomic::Atomic::<usize>::compare_exchange, u_cas)]
+#[kani::stub(std::sync::atomic::Atomic::<usize>::fetch_or, u_fetch_or)]
+#[kani::stub(Guard::defer_destroy, k_defer_destroy_may_reannounce)]
+#[kani::unwind(4)]
+fn c14_try_advance_monotone_under_reannouncement() {
+    unsafe {
+        let c: &'static Collector = leak(Collector::new());
+        let me_store = ManuallyDrop::new(mk_local(c, 2));
+        let b_store = ManuallyDrop::new(mk_local(c, 2));
+        let (me, b): (&Local, &Local) = (&me_store, &b_store);
+        kani::assume((&me.entry as *const Entry as usize) & 7 == 0 && (&b.entry as *const Entry as usize) & 7 == 0);
+        // registry: head -> me -> b, b logically removed (its owner exited): my scan will unlink it
+        crate::ebr_impl::sync::list::verif_list::link_raw(&c.global.locals, &[&me.entry, &b.entry], &[false, true]);
+        let e: usize = kani::any(); kani::assume(e & 1 == 0 && e < usize::MAX - 8);
+        me.guard_count.set(1);
+        set_raw_epoch(&me.epoch, e | 1);
+        me.collecting.set(true);                       // inside unpin's collection loop
+        set_raw_epoch(&b.epoch, 0);
+        set_raw_epoch(&c.global.epoch, if kani::any() { e + 2 } else { e });
+        GWORD = epoch_word(&c.global.epoch);
+        G_MODE = 2; PIN_VAL = e; G_BUDGET = budget();
+        let guard = ManuallyDrop::new(Guard { local: me });
+        let _ = c.global.try_advance(&guard);
+        if G_STORES >= 1 {
+            assert!(G_STORE_VAL == G_BEFORE_STORE || G_STORE_VAL == G_BEFORE_STORE.wrapping_add(2),
+                    "C14.advance.never_steps_back_even_if_callers_announcement_moves_during_the_scan");
+        }
+        kani::cover!(REANNOUNCED == 1 && G_STORES == 1, "cover.advance.reannounced_then_stored");
+        kani::cover!(DESTROYS == 1, "cover.advance.unlinked_removed_participant");
+    }
+}
